@@ -24,7 +24,9 @@ LEVEL = "exploration"
 ATOMS = [("1=p", None), ("a", "a"), (" a", " a"), ("a ", "a "), ("\na", "\na"), ("k=v", None), (" k = v ", None), ("k=\nv", None),
          ("2=v", None), ("j= {{a|z}} ", None), ("{{a|x}}", "A[x]"), (" {{a| y }} ", " A[ y ] "), ("x y", "x y"), ("m=", None), ("n={{pad}}", None), ("{{pad}}", " x "),
          ("t=one\ntwo", None), (" u = * a\n* b\n", None),
-         ("{{kn}}=cv", None), ("{{one}}=nv", None), ("{{kv}}", "q=v")]
+         ("{{kn}}=cv", None), ("{{one}}=nv", None), ("{{kv}}", "q=v"),
+         # blanks protected by nowiki survive the trimming of a named value (the idiom for passing a separator)
+         ("s=<nowiki> , </nowiki>", None), ("r= <nowiki> </nowiki>x ", None)]
 EXPAND = {"{{a|z}}": "A[z]", "{{pad}}": " x ", "{{kn}}": "cn", "{{one}}": "1", "{{kv}}": "q=v"}
 
 ECHO = r"""
@@ -126,7 +128,11 @@ def ref_args(lst):
     for a in lst:
         if table.get(a) is None:
             k, v = a.split("=", 1)
-            d[key_of(expand_ref(k))] = expand_ref(v).strip()
+            if "<nowiki>" in v:
+                # trimmed as written, then the nowiki content is put in as it is
+                d[key_of(expand_ref(k))] = v.strip().replace("<nowiki>", "").replace("</nowiki>", "")
+            else:
+                d[key_of(expand_ref(k))] = expand_ref(v).strip()
         else:
             v = table[a]
             d[num] = v[:-1] if v.endswith("\n") else v
